@@ -12,4 +12,4 @@ for c in "$@"; do
 done
 git -C /repo checkout -- . 
 git -C /repo status --short
-find /verif/replays -name '*.json' -newer "$P" -delete 2>/dev/null
+find /verif/replays -path /verif/replays/known -prune -o -name '*.json' -newer "$P" -type f -exec rm -f {} + 2>/dev/null
